@@ -167,7 +167,7 @@ def writer_text(F, rights, side, ep):
     if cache is None:
         h = inline.unroll_literal_loops(fn["hir"])
         ex = hir.Exec(h, F, tolerant=True)
-        cache = ex.run()
+        cache = hir.resolve_consts(ex.run(), F)
         F._fen_summary = cache
     ST = ("call", "chess::Game::state", (("var", "self"),))
     a = {("field", ("var", "self"), "current_player"): ("variant", PL + side),
